@@ -46,7 +46,13 @@ pub(crate) fn input_matches(mut input: Ref) -> io::Result<bool> {
 		Ref::Reader(r) => match_input_reader(r),
 	};
 	match result {
-		Err(InvalidMarkerRead(err) | InvalidDataRead(err)) => Err(err),
+		// rmp reports running out of input as an UnexpectedEof I/O error of
+		// its own making; that is a failed trial, not a failure of the source.
+		Err(InvalidMarkerRead(err) | InvalidDataRead(err))
+			if err.kind() != io::ErrorKind::UnexpectedEof =>
+		{
+			Err(err)
+		}
 		Err(_) => Ok(false),
 		Ok(()) => Ok(true),
 	}
